@@ -392,6 +392,46 @@ def rule_writethrough(chk, prog):
                           "then the final superblock) can reach the file in a different order" % (f.name, why))
 
 
+def rule_open_atomic(chk, prog):
+    """K12-open: an existing output file is emptied by the open() that opens it (O_TRUNC under the overwrite flag, O_EXCL
+    otherwise).  Emptying it later (ftruncate after open) leaves a window in which a killed packer leaves the complete
+    image of a previous run behind, which every reader accepts."""
+    fs = [g for g in prog.functions() if g.name == "sqfs_native_file_open" and not g.decl and g.unit.src.endswith("unix.c")]
+    if not fs:
+        chk.broke("sqfs_native_file_open (unix) not found")
+        return
+    f = fs[0].build()
+    chk.analysed(f)
+    opens = [c for c in f.calls() if norm_callee(c.callee) in ("open", "open64")]
+    if not opens:
+        chk.broke("sqfs_native_file_open no longer calls open()")
+        return
+    O_TRUNC, O_EXCL, O_CREAT = 0o1000, 0o200, 0o100
+    for c in opens:
+        from ..util import backward_slice
+        sl = backward_slice(c.ops[1], phi_control=False)
+        consts = set()
+        for x in sl:
+            if x.is_const and x.is_int:
+                consts.add(x.uval)
+            if x.is_inst and x.op == "or":
+                for o in x.ops:
+                    if o.is_const and o.is_int:
+                        consts.add(o.uval)
+        has_trunc = any(k & O_TRUNC for k in consts)
+        has_excl = any(k & O_EXCL for k in consts)
+        has_creat = any(k & O_CREAT for k in consts)
+        late = [x for x in f.calls() if norm_callee(x.callee) in ("ftruncate", "ftruncate64", "truncate")]
+        inst = "sqfs_native_file_open:open"
+        if has_creat and has_trunc and has_excl and not late:
+            chk.ok("K12-open", inst, c, "a writable open either creates exclusively or truncates in the same system call")
+        elif not has_creat:
+            chk.ok("K12-open", inst, c, "read-only open")
+        else:
+            chk.violation("K12-open", inst, late[0] if late else c, "the output file is not emptied by the open() itself (O_TRUNC missing or "
+                          "replaced by a later ftruncate): a packer killed in between leaves the previous, complete image in place")
+
+
 def run(chk):
     chk.explanation = (
         "Effect-ordering rules (K11/K12/K2/K1) on the image writer, decided on LLVM IR with a may-write-output "
@@ -414,6 +454,8 @@ def run(chk):
             rule_b_finish(chk, prog)
         rule_c_who_commits(chk, prog, tool)
         rule_e_finish_last(chk, prog, tool)
+    rule_open_atomic(chk, lib)
+    chk.floor("K12-open", 1)
     chk.floor("K12-init", 8)
     chk.floor("K11-window", 2)
     chk.floor("K11-final", 7)
